@@ -228,7 +228,7 @@ def worker(args):
 
 
 def run(chk):
-    N = 2 if chk.tier == 'quick' else 6
+    N = 2 if chk.tier == 'quick' else 8
     cases = [(chk.prop, chk.tier, k, s, N) for k, s in KINDS]
     chk.bounds = {'item kinds': [list(k) for k in KINDS], 'length': '-1..%d (symbolic)' % N,
                   'misalignment of source pointer': '0..7 (symbolic)', 'alignment field of the item type': 'natural alignment for primitives (= size), any value for pointer/struct items',
